@@ -59,10 +59,12 @@ Lemma agree_gen_Arc_cropped start radius rotation large sweep end_ center theta 
   gen_Arc_cropped N T start radius rotation large sweep end_ center theta delta phi rot t0 t1
   = arc_cropped_args N T (mkArcP start radius rotation large sweep end_ center theta delta phi rot) t0 t1.
 Proof.
-  destruct radius, center, rot.
-  unfold gen_Arc_cropped, arc_cropped_args, arc_crop_large, arc_point, d180.
-  cbn [a_start a_radius a_rotation a_large a_sweep a_end a_center a_theta a_delta a_phi a_rot re im fst snd].
-  destruct (leb N (nabs N (mul N delta (sub N t1 t0))) (lit N 180)); reflexivity.
+  first [ solve [ destruct radius, center, rot;
+                  unfold gen_Arc_cropped, arc_cropped_args, arc_crop_large, arc_point, d180;
+                  cbn [a_start a_radius a_rotation a_large a_sweep a_end a_center a_theta a_delta a_phi a_rot re im fst snd];
+                  destruct (leb N (nabs N (mul N delta (sub N t1 t0))) (lit N 180)); reflexivity ]
+        | (* the same arguments written in another ring-equal way (e.g. (t1 - t0)*delta) *)
+          solve [ unfold gen_Arc_cropped, arc_cropped_args, arc_crop_large; agree_cases OK N T ] ].
 Qed.
 
 (* ---------------- part 2: the models over the generated building blocks ---------------- *)
